@@ -160,7 +160,7 @@ class Machine:
             if r < 0.78:
                 rows = rng.choice((0, 1, 2, 3, 4, 5, 6, 8))
             elif r < 0.985:
-                rows = rng.choice((12, 17, 19, 21, 22, 23, 30, 37, 40, 64, 100))
+                rows = rng.choice((12, 17, 19, 21, 22, 23, 30, 37, 40, 64, 100, 128, 200, 255))
             elif r < 0.9985 or not self.big_ok:
                 rows = rng.choice((257, 300))  # row ids beyond one byte
             else:
@@ -234,6 +234,7 @@ class Machine:
             op["common"] = rng.choice(palette)
         if op["counts"] and op["mapping"] is None and rng.random() < 0.4:
             op["zero_counts"] = [v for v in list(palette) + [9] if v not in present][:2]
+        op["twice"] = rng.random() < 0.3
         return op
 
     def gen_shift_common(self, rng, palette):
@@ -481,6 +482,8 @@ class Machine:
               "rmode": rng.choice(disk.READER_MODES), "crash": None}
         if rng.random() < 0.4:
             op["crash"] = rng.random()  # fraction of the file that survives
+        elif rng.random() < 0.45:
+            op.update(writer="other-tool", index_word=rng.choice((1, 1, 2, 4, 8)), rowid_word=rng.choice((1, 1, 2, 4, 8)))
         return op
 
     # ------------------------------------------------------------------ execution
@@ -564,6 +567,22 @@ class Machine:
         except Malformed as m:
             self.fail("C07", m.vclass, "from_array", str(m))
         self.put(op["dst"], idx, dense)  # the model ADOPTS what from_array built
+        if op.get("twice"):
+            # the same call again with the very same argument objects (e.g. to build the twin to compare with)
+            try:
+                with warnings.catch_warnings():
+                    warnings.simplefilter("ignore")
+                    again = iindex_cls().from_array(a, **kw)
+            except Exception as e:
+                self.fail("C15", "second-identical-call-raised:" + type(e).__name__, "from_array", repr(e))
+            self.stats.count("probe_from_array_called_twice_with_same_objects")
+            try:
+                same = (again == idx) and not (again != idx)
+            except Exception as e:
+                self.fail("C15", "eq-raises:" + type(e).__name__, "from_array", repr(e))
+            if not same:
+                self.fail("C15", "eq-not-canonical", "from_array",
+                          "two identical from_array calls with the same argument objects give unequal indexes: %r vs %r" % (idx, again))
         strategy = "rowscan" if (a.size and len(set(a.ravel().tolist())) >= 5) else "where"
         self.stats.count("from_array_" + strategy + "_candidate")
         if op["common"] is None:
@@ -939,6 +958,28 @@ class Machine:
         except Malformed:
             raise Skip()
         snap = model.snapshot(s.idx)
+        if op.get("writer") == "other-tool":
+            # the file comes from another tool: documented layout, but any admissible word sizes
+            from .. import refcodec
+
+            ents = [(k, v.tolist()) for k, v in dict.items(s.idx)]
+            biggest = max([s.idx.common] + [c for k, _ in ents for c in k])
+            maxrow = max([len(v) for _, v in ents] + [x for _, v in ents for x in v] + [0])
+            iw = max(refcodec.narrowest_word(biggest), op.get("index_word", 1))
+            rw = max(refcodec.narrowest_word(maxrow), op.get("rowid_word", 1))
+            blob = refcodec.encode(ents, s.idx.common, iw, rw)
+            self.stats.count("probe_reload_of_file_written_by_other_tool")
+            if rw < 4 and sum(len(v) for _, v in ents) >= (1 << (8 * rw)):
+                self.stats.count("probe_reload_narrow_rowid_word_many_ids")
+            with disk.SimDisk(blob) as d:
+                try:
+                    entries, common, _ = self._load(d, op["rmode"])
+                except Exception:
+                    self.stats.count("reload_raised_not_judged")
+                    raise Skip()
+            out = iindex_cls()(dict(entries), common, s.idx.shape)
+            self.put(op["dst"], out, s.a.copy())
+            return
         with disk.SimDisk() as d:
             f = d.writer(op["wmode"])
             try:
@@ -950,7 +991,8 @@ class Machine:
                 # save failures belong to C10/C11
                 self.stats.count("persist_save_raised_not_judged")
                 raise Skip()
-            disk.check_log_reproduces(f.ops, d)
+            if not f.append:
+                disk.check_log_reproduces(f.ops, d)
             f.close()
             self.unchanged(s.idx, snap, "persist")
             full = d.content()
@@ -1093,6 +1135,21 @@ class Machine:
         things = [(s.idx, s.a) for s in self.slots]
         for s in list(self.slots):
             things.append((cls(model.entries_of(s.a, s.idx.common), s.idx.common, tuple(int(x) for x in s.a.shape)), s.a))
+        # near-twins: the same index with ONE cell changed must compare unequal (in both directions)
+        import random as _random
+
+        for s in list(self.slots):
+            if s.a.size == 0:
+                continue
+            r = _random.Random(s.a.tobytes() + repr(s.idx.common).encode())
+            values = sorted(set(s.a.ravel().tolist()) | {s.idx.common})
+            for _ in range(2):
+                b = s.a.copy()
+                cell = tuple(r.randrange(e) for e in b.shape)
+                others = [v for v in values if v != b[cell]] or [int(b[cell]) + 1]
+                b[cell] = r.choice(others)
+                things.append((cls(model.entries_of(b, s.idx.common), s.idx.common, tuple(int(x) for x in b.shape)), b))
+            self.stats.count("c15_near_twins_compared", 2)
         n = len(things)
         for i in range(n):
             a, da = things[i]
